@@ -42,7 +42,12 @@ def canon(v):
     if isinstance(v, bool):
         return {"t": "bool", "v": v}
     if isinstance(v, enum.Enum):
-        return {"t": "enum", "c": type(v).__name__, "v": v.name}
+        c = type(v).__name__
+        # "of the same Python type": a member of ANOTHER class that merely has the same name (a class of an earlier case,
+        # handed back by a cache keyed on the name) is not the declared type
+        if CURRENT_NS is not None and CURRENT_NS.get(c) is not type(v):
+            c += "!not-the-declared-class"
+        return {"t": "enum", "c": c, "v": v.name}
     if isinstance(v, int):
         return {"t": "int", "v": str(v)}
     if isinstance(v, float):
@@ -72,9 +77,19 @@ def canon(v):
     return {"t": "other", "c": type(v).__name__, "v": repr(v)[:200]}
 
 
+CURRENT_NS = None  # namespace in which the current case's classes were defined (set by runners that exec generated source)
+
+
+def set_current_ns(ns):
+    global CURRENT_NS
+    CURRENT_NS = ns
+
+
 def reset_simple_parsing_state():
     """Class-level settings that parsers overwrite (FieldWrapper.*) are reset between cases so that one
     case cannot influence the next (C08 studies that influence on purpose and does not call this)."""
+    global CURRENT_NS
+    CURRENT_NS = None
     from simple_parsing.wrappers.field_wrapper import (
         ArgumentGenerationMode,
         DashVariant,
